@@ -35,6 +35,9 @@ class GhostData:
     def shape(self):
         return (self.size,)
 
+    def pyvc_len(self):
+        return self.size
+
     def __repr__(self):
         return f"<GhostData {self.op[0]} size={self.size}>"
 
@@ -44,61 +47,160 @@ _SAME_SIZE = ('conj', 'copy', 'clone', 'detach', 'absolute', 'real', 'imag', 'sq
 
 
 class GhostBackend:
-    """ contracts of the backend kernels at the level the metadata layer needs: result sizes, freshness """
+    """
+    Contracts of the backend kernels at the level the metadata layer needs.
+    ensures: result size as given / fresh container.
+    requires (checked as obligations `kernel-pre:<kernel>:<clause>` at every call made by the real metadata
+    code): every NumPy slicing / reshape / matmul the real kernel performs is shape-valid and in bounds, and an
+    output allocated with np.empty is completely written.  These are taken from the kernel bodies in
+    backend_np.py.
+    """
     BACKEND_ID = 'ghost'
     DTYPE = {'float64': 'float64', 'complex128': 'complex128'}
 
-    def __init__(self):
+    def __init__(self, V=None):
         self.calls = []
+        self.V = V
 
     def _rec(self, name, size, src, args):
         self.calls.append((name, args))
         return GhostData(size, (name,), src)
 
+    def _req(self, kernel, clause, cond):
+        if self.V is not None:
+            self.V.check(f"kernel-pre:{kernel}:{clause}", cond)
+
     def __getattr__(self, name):
         if name.startswith('__'):
             raise AttributeError(name)
-        if name in _SAME_SIZE:
+        if name in _SAME_SIZE and name != 'transpose':
             return lambda data, *a, **k: self._rec(name, data.size, (data,), a)
-        raise AttributeError(f"ghost backend has no contract for '{name}'")
+        from pyvc.sym import Unsupported
+        raise Unsupported(f"ghost backend has no contract for '{name}'")
 
-    # sizes given explicitly by the metadata layer
+    # ---- kernels with preconditions ------------------------------------------------------------
+    def transpose(self, data, axes, meta):
+        k = 'transpose'
+        self._req(k, 'rows-shape-valid', And(*[And(_len(sln) == prod(Dn), _len(slo) == prod(Do), _inb(slo, data.size),
+                                                   deep_eq(tuple(Dn), tuple(Do[a] for a in axes))) for sln, Dn, slo, Do in meta]))
+        self._req(k, 'output-completely-written', _tiles([m[0] for m in meta], data.size))
+        return self._rec(k, data.size, (data,), (axes, meta))
+
+    def dot(self, A, B, meta_dot, Dsize):
+        k = 'dot'
+        self._req(k, 'rows-shape-valid', And(*[And(len(Da) == 2, len(Db) == 2, len(Dc) == 2, Da[1] == Db[0], Dc[0] == Da[0], Dc[1] == Db[1],
+                                                   _len(slc) == Dc[0] * Dc[1], _len(sla) == Da[0] * Da[1], _len(slb) == Db[0] * Db[1],
+                                                   _inb(sla, A.size), _inb(slb, B.size)) for slc, Dc, sla, Da, slb, Db in meta_dot]))
+        self._req(k, 'output-completely-written', _tiles([m[0] for m in meta_dot], Dsize))
+        return self._rec(k, Dsize, (A, B), (meta_dot, Dsize))
+
+    def transpose_dot_sum(self, A, B, meta_dot, Areshape, Breshape, Aorder, Border, Dsize):
+        k = 'transpose_dot_sum'
+        for nm, data, resh, order in (('A', A, Areshape, Aorder), ('B', B, Breshape, Border)):
+            self._req(k, f'{nm}-reshape-valid', And(*[And(_len(sl) == prod(Di), _inb(sl, data.size), len(Di) == len(order),
+                                                          prod(Di) == Dl * Dr) for sl, Di, Dl, Dr in resh]))
+        ok = []
+        for sl, Dslc, list_tab in meta_dot:
+            ok.append(len(list_tab) >= 1)
+            ok.append(_len(sl) == Dslc[0] * Dslc[1])
+            for ta, tb in list_tab:
+                ok.append(And(Areshape[ta][3] == Breshape[tb][2], Dslc[0] == Areshape[ta][2], Dslc[1] == Breshape[tb][3]))
+        self._req(k, 'products-shape-valid', And(*ok))
+        self._req(k, 'output-completely-written', _tiles([m[0] for m in meta_dot], Dsize))
+        return self._rec(k, Dsize, (A, B), (meta_dot, Areshape, Breshape, Aorder, Border, Dsize))
+
+    def unmerge(self, data, meta):
+        k = 'unmerge'
+        Dsize = meta[-1][0][1] if len(meta) > 0 else 0
+        ok = []
+        for sln, Dn, slo, Do, sub in meta:
+            ok.append(And(_len(sln) == prod(Dn), _len(slo) == prod(Do), _inb(slo, data.size), len(sub) == len(Do), len(Dn) == len(Do)))
+            if len(sub) == len(Do) == len(Dn):
+                ok.append(And(*[And(0 <= x[0], x[0] <= x[1], x[1] <= d, x[1] - x[0] == dn) for x, d, dn in zip(sub, Do, Dn)]))
+        self._req(k, 'rows-shape-valid', And(*ok))
+        self._req(k, 'output-completely-written', And(_tiles([m[0] for m in meta], Dsize), Dsize == data.size))
+        return self._rec(k, Dsize, (data,), (meta,))
+
+    def transpose_and_merge(self, data, order, meta_new, meta_mrg, Dsize):
+        k = 'transpose_and_merge'
+        # the kernel zips meta_new with groupby(meta_mrg, key=row[0])
+        groups = []
+        for row in meta_mrg:
+            if groups and deep_eq(groups[-1][0], row[0]) is True:
+                groups[-1][1].append(row)
+            elif groups and deep_eq(groups[-1][0], row[0]) is not False:
+                # symbolic equality of consecutive keys: fork, as the real groupby would
+                if self.V is not None and self.V.fork(deep_eq(groups[-1][0], row[0])):
+                    groups[-1][1].append(row)
+                else:
+                    groups.append((row[0], [row]))
+            else:
+                groups.append((row[0], [row]))
+        self._req(k, 'groups-match-new-blocks', len(groups) == len(meta_new) and
+                  And(*[deep_eq(tuple(tn), tuple(g[0])) for (tn, Dn, sln), g in zip(meta_new, groups)]))
+        ok = []
+        for (tn, Dn, sln), (t1, rows) in zip(meta_new, groups):
+            ok.append(And(_len(sln) == prod(Dn), _inb(sln, Dsize)))
+            for (_, slo, Do, Dslc, Drsh) in rows:
+                ok.append(And(_len(slo) == prod(Do), _inb(slo, data.size), prod(Drsh) == prod(Do), len(Dslc) == len(Dn), len(Drsh) == len(Dn),
+                              len(Do) == len(order)))
+                if len(Dslc) == len(Dn) == len(Drsh):
+                    ok.append(And(*[And(0 <= x[0], x[1] <= d, x[1] - x[0] == r) for x, d, r in zip(Dslc, Dn, Drsh)]))
+        self._req(k, 'rows-shape-valid', And(*ok))
+        self._req(k, 'new-blocks-tile-output', _tiles([m[2] for m in meta_new], Dsize))
+        return self._rec(k, Dsize, (data,), (order, meta_new, meta_mrg, Dsize))
+
+    def add(self, datas, metas, Dsize):
+        k = 'add'
+        self._req(k, 'rows-shape-valid', And(*[And(_len(slc) == _len(sla), _inb(slc, Dsize), _inb(sla, d.size))
+                                               for d, meta in zip(datas, metas) for slc, sla in meta]))
+        return self._rec(k, Dsize, tuple(datas), (metas, Dsize))
+
+    def sub(self, A, B, meta, Dsize):
+        k = 'sub'
+        self._req(k, 'rows-shape-valid', And(*[And(_len(slc) == _len(sla), _inb(slc, Dsize), _inb(sla, d.size))
+                                               for d, mt in zip((A, B), meta) for slc, sla in mt]))
+        return self._rec(k, Dsize, (A, B), (meta, Dsize))
+
+    def vdot(self, A, B, meta):
+        self._req('vdot', 'rows-shape-valid', And(*[And(_len(sla) == _len(slb), _inb(sla, A.size), _inb(slb, B.size)) for sla, slb in meta]))
+        self.calls.append(('vdot', (meta,)))
+        return GhostScalar(('vdot', A.uid, B.uid))
+
+    def dot_diag(self, A, B, meta, Dsize, axis, a_ndim):
+        k = 'dot_diag'
+        self._req(k, 'rows-shape-valid', And(*[And(_len(sln) == prod(Db), _len(slb) == prod(Db), len(Db) == a_ndim, _inb(slb, B.size),
+                                                   _inb(sla, A.size), _len(sla) == Db[axis]) for sln, slb, Db, sla in meta]))
+        self._req(k, 'output-completely-written', _tiles([m[0] for m in meta], Dsize))
+        return self._rec(k, Dsize, (A, B), (meta, Dsize, axis, a_ndim))
+
+    def diag_1dto2d(self, data, meta, Dsize):
+        self._req('diag_1dto2d', 'rows-shape-valid', And(*[And(_len(sln) == _len(slo) * _len(slo), _inb(sln, Dsize), _inb(slo, data.size))
+                                                           for sln, slo in meta]))
+        return self._rec('diag_1dto2d', Dsize, (data,), (meta, Dsize))
+
+    def diag_2dto1d(self, data, meta, Dsize):
+        self._req('diag_2dto1d', 'rows-shape-valid', And(*[And(_len(slo) == Do[0] * Do[1], Do[0] == Do[1], _len(sln) == Do[0],
+                                                               _inb(sln, Dsize), _inb(slo, data.size)) for sln, slo, Do in meta]))
+        return self._rec('diag_2dto1d', Dsize, (data,), (meta, Dsize))
+
+    def trace(self, data, order, meta, Dsize):
+        k = 'trace'
+        ok = []
+        for sln, lst in meta:
+            ok.append(_inb(sln, Dsize))
+            for slo, Do, Drsh in lst:
+                ok.append(And(_len(slo) == prod(Do), _inb(slo, data.size), prod(Drsh) == prod(Do), len(Drsh) == 3,
+                              Drsh[0] == Drsh[1], _len(sln) == Drsh[2], len(Do) == len(order)))
+        self._req(k, 'rows-shape-valid', And(*ok))
+        return self._rec(k, Dsize, (data,), (order, meta, Dsize))
+
+    # sizes given explicitly by the metadata layer (mask kernels get their contracts in the C13 pack)
     def embed_mask(self, data, mask, meta, Dsize, axis, a_ndim):
         return self._rec('embed_mask', Dsize, (data,), (mask, meta, Dsize, axis, a_ndim))
 
     def apply_mask(self, data, mask, meta, Dsize, axis, a_ndim):
         return self._rec('apply_mask', Dsize, (data,), (mask, meta, Dsize, axis, a_ndim))
-
-    def diag_1dto2d(self, data, meta, Dsize):
-        return self._rec('diag_1dto2d', Dsize, (data,), (meta, Dsize))
-
-    def diag_2dto1d(self, data, meta, Dsize):
-        return self._rec('diag_2dto1d', Dsize, (data,), (meta, Dsize))
-
-    def add(self, datas, metas, Dsize):
-        return self._rec('add', Dsize, tuple(datas), (metas, Dsize))
-
-    def sub(self, A, B, meta, Dsize):
-        return self._rec('sub', Dsize, (A, B), (meta, Dsize))
-
-    def dot(self, A, B, meta_dot, Dsize):
-        return self._rec('dot', Dsize, (A, B), (meta_dot, Dsize))
-
-    def dot_diag(self, A, B, meta, Dsize, axis, a_ndim):
-        return self._rec('dot_diag', Dsize, (A, B), (meta, Dsize, axis, a_ndim))
-
-    def transpose_dot_sum(self, A, B, meta_dot, Areshape, Breshape, Aorder, Border, Dsize):
-        return self._rec('transpose_dot_sum', Dsize, (A, B), (meta_dot, Areshape, Breshape, Aorder, Border, Dsize))
-
-    def trace(self, data, order, meta, Dsize):
-        return self._rec('trace', Dsize, (data,), (order, meta, Dsize))
-
-    def transpose_and_merge(self, data, order, meta_new, meta_mrg, Dsize):
-        return self._rec('transpose_and_merge', Dsize, (data,), (order, meta_new, meta_mrg, Dsize))
-
-    def vdot(self, A, B, meta):
-        self.calls.append(('vdot', (meta,)))
-        return GhostScalar(('vdot', A.uid, B.uid))
 
     def zeros(self, D, dtype='float64', **kw):
         n = D[0] if isinstance(D, (tuple, list)) else D
@@ -126,6 +228,25 @@ class GhostBackend:
         return 0.0
 
 
+def _len(sl):
+    return sl[1] - sl[0]
+
+
+def _inb(sl, n):
+    return And(0 <= sl[0], sl[0] <= sl[1], sl[1] <= n)
+
+
+def _tiles(slcs, n):
+    """ formula: the intervals, in the given order, tile [0, n) exactly """
+    f = []
+    low = 0
+    for sl in slcs:
+        f.append(And(sl[0] == low, sl[1] >= sl[0]))
+        low = sl[1]
+    f.append(low == n)
+    return And(*f)
+
+
 class GhostScalar:
     def __init__(self, op):
         self.op = op
@@ -138,7 +259,7 @@ class GhostScalar:
 def make_config(V, sym, fermionic=False, **kw):
     from yastn.tensor._auxiliary import _config
     if V.symbolic:
-        return _config(backend=GhostBackend(), sym=sym_class(sym), fermionic=fermionic, **kw)
+        return _config(backend=GhostBackend(V), sym=sym_class(sym), fermionic=fermionic, **kw)
     import yastn.backend.backend_np as bnp
     return _config(backend=bnp, sym=sym_class(sym), fermionic=fermionic, **kw)
 
